@@ -83,7 +83,8 @@ def gift_block(rng, k, ok, chunks):
 
 
 # ------------------------------------------------------------------ direct oracle (no model involved)
-def oracle(ctx, name, script, r):
+def judge(r):
+    """the property evaluated on what the real brokers did: list of (signature, description)"""
     bad = []
     if r["errors"]:
         bad.append(("harness-inconsistency", "; ".join(r["errors"][:3])))
@@ -128,11 +129,30 @@ def oracle(ctx, name, script, r):
         for (c, k), res in r["results"][d].items():
             if k == "plain" and res != c:
                 bad.append(("oracle/wrong-answer", "direction %d: call %d answered %r" % (d, c, res)))
+    return bad
+
+
+def report(ctx, impl, name, script, r, bad, seen):
+    """shrink the script (once per signature), then record the failures"""
+    sig0 = bad[0][0]
+    if sig0 not in seen and not sig0.startswith("harness") and len(script) > 2 and not name.startswith("corpus/"):
+        seen.add(sig0)
+
+        def still(sc):
+            try:
+                return any(sg == sig0 for sg, _ in judge(impl.run_scenario(sc)))
+            except Exception:
+                return False
+        small = common.shrink_list(script, still, max_rounds=60)
+        if len(small) < len(script):
+            r2 = impl.run_scenario(small)
+            bad2 = judge(r2)
+            if any(sg == sig0 for sg, _ in bad2):
+                script, r, bad, name = small, r2, bad2, name + " (shrunk)"
     for sig, what in bad:
         ctx.fail(sig, "%s [scenario %s: %s]" % (what, name, json.dumps(script)[:1500]),
                  replay=dict(scenario=name, script=script, events=r["events"], issued=r["issued"]),
                  has_input=not sig.startswith("harness"))
-    return not bad
 
 
 # ------------------------------------------------------------------ correspondence
@@ -308,10 +328,15 @@ def run(ctx):
     ]
     ok, log = ctx.coq_build(["props/C04.vo"])
     from harness import c04_impl as impl
+    import gc
+    gc.disable()        # finalizers of dead RemoteReferences send messages: only at the quiescent points chosen below
     before = len(ctx.failures)
     runs = []
+    seen_sigs = set()
 
     def do(name, script):
+        if len(runs) % 40 == 0:
+            impl.settle_gc()
         r = impl.run_scenario(script)
         sent = [len(r["issued"][d]) for d in (0, 1)]
         interesting = any(k != "plain" or st for d in (0, 1) for _, k, st in r["issued"][d]) or sent[1] > 0
@@ -324,7 +349,9 @@ def run(ctx):
             for e, _ in r["events"][d]:
                 ctx.hist("event", e)
         ctx.hist("script_len", 10 * (len(script) // 10))
-        oracle(ctx, name, script, r)
+        bad = judge(r)
+        if bad:
+            report(ctx, impl, name, script, r, bad, seen_sigs)
         has_gift = any(k == "gift" for d in (0, 1) for _, k, _ in r["issued"][d])
         runs.append((name, script, 0, r))
         if not has_gift and sent[1]:
